@@ -9,6 +9,7 @@ import (
 	"path/filepath"
 	"runtime/debug"
 	"sort"
+	"strconv"
 	"strings"
 	"sync"
 	"testing"
@@ -342,3 +343,14 @@ func (d *Direct) Case(c any, cs *CaseStats, err error) {
 
 // Done writes the stats.
 func (d *Direct) Done() { d.St.Write() }
+
+// MyShard reports whether enumerated item i belongs to this process when a
+// direct stage is split over several processes (VERIF_SHARD / VERIF_SHARDS).
+func MyShard(i int) bool {
+	n, _ := strconv.Atoi(os.Getenv("VERIF_SHARDS"))
+	k, _ := strconv.Atoi(os.Getenv("VERIF_SHARD"))
+	if n <= 1 {
+		return true
+	}
+	return i%n == k
+}
